@@ -161,6 +161,16 @@ def run(prog: Program, rep, thorough: bool) -> None:
         interp += 1
         nrd_after = h[flt.oid].get('next_record_distance')
         rs = A.sym('rs')
+        if isinstance(nrd_after, Scalar):
+            lp, ln = ({A.ATOMS[a_].name for a_ in r_.all_atoms() if "@loop" in str(A.ATOMS[a_].name)} for r_ in (px.rf, nrd_after.rf))
+            if lp and ln and lp != ln:
+                # the row and the stored distance are carried through the catch-up loop in two different locals: how they
+                # relate after the loop is an invariant of the loop, which the havoc reading of a loop does not keep
+                raise AnalysisError(f'should_record: the catch-up loop carries the record distance in several variables '
+                                    f'({sorted(lp | ln)}); their relation after the loop is not readable')
+        elif '@loop' in repr(nrd_after):
+            raise AnalysisError(f'should_record: the record distance stored after the catch-up loop is {nrd_after!r}, a value '
+                                f'carried through the loop in a local; its relation to the row is not readable')
         if not (isinstance(nrd_after, Scalar) and px.rf.equals(nrd_after.rf - rs)):
             problems.append(f'the interpolated row has x = {px.rf!r} while the record distance it was made for is '
                             f'{(nrd_after.rf - rs) if isinstance(nrd_after, Scalar) else nrd_after!r}')
